@@ -5,7 +5,8 @@ from props import forest_common as fc
 THEOREMS = ['C20_tft_unshaped_exact', 'C20_tft_unshaped_perm', 'C20_tft_resolve_in', 'C20_is_ambiguous_single', 'C20_is_ambiguous_iff',
             'C20_visit_terminates', 'C20_visit_total', 'C20_on_cycle_exact', 'C20_cycle_events_sound',
             'C20_loop_eq_rec', 'C20_example_tft', 'C20_example_cycle', 'C20_graph_resolve_in_den',
-            'C20_graph_resolve_total', 'C20_example_graph_resolve']
+            'C20_graph_resolve_total', 'C20_example_graph_resolve', 'C20_forest_exact_model',
+            'C20_forest_complete_model', 'C20_resolve_model_exact']
 GEN_DEPS = ['ForestSortKey']
 RULE = ('(c) random grammars for the dynamic lexers with one to three %ignore literals of different lengths that are prefixes/'
         'suffixes of the grammar\'s own string terminals, all texts up to length 4, character-level tiling oracle; '
@@ -21,8 +22,9 @@ TRUSTED_BASE = ['export of the SPPF and instrumentation of the visitor classes b
                 'lists returned by visit_*_in are recorded and replayed as the model parameter sel)',
                 'TreeForestTransformer is modelled on acyclic forests only; on cyclic forests its walk is covered by the '
                 'generic visitor model (termination, trace) and its output by a Python validity check of every tree',
-                'completeness of the forest built by the Earley engines is NOT proved (C20_forest_complete_full_statement): '
-                'it is compared with brute-force derivation enumeration on every case']
+                'forest exactness is proved for the executable Earley model (C20_forest_exact_model, basic lexer / unit '
+                'tokens); that the model is lark (and the dynamic lexers) is compared per case: model derivations of '
+                'the exported forest = brute-force derivations']
 ALLOWED_AXIOMS = []
 ASSUMPTIONS = ['with regexp terminals under the dynamic lexers, completeness of the forest is only required for the token spans the '
                'scanner considers (known finding F7); soundness is required against re.fullmatch on every span',
@@ -30,7 +32,8 @@ ASSUMPTIONS = ['with regexp terminals under the dynamic lexers, completeness of 
                'grammars without tree shaping for the derivation comparison (plain rule names, named terminals)',
                'streams (a) and (b) use string-literal terminals only']
 
-IMPORTS_G = 'From LV Require Import Cfg.Grammar Forest.ExplicitBuild Forest.GraphResolve Forest.GraphResolveCheck.'
+IMPORTS_G = ('From LV Require Import Cfg.Grammar Forest.ExplicitBuild Forest.GraphResolve Forest.GraphSum '
+             'Forest.GraphResolveCheck.')
 IMPORTS = ('From LV Require Import Base.Prelude Forest.Sppf Forest.Prio Forest.SppfCheck Forest.PrioCheck Forest.Tft '
            'Forest.TftCheck Forest.Visit Forest.VisitCheck.')
 MAX_UNFOLDED = 700
@@ -180,9 +183,16 @@ def walk_cases(ctx, root, p, w, out_cases, out_meta, cyclic, nontrivial, pick=No
                     break
 
 
-def graph_case(ctx, root, p, w, out_cases, out_meta, cyclic):
+def graph_case(ctx, root, p, w, out_cases, out_meta, cyclic, sum_cases=None, sum_meta=None):
     """ForestToParseTree(resolve) on the graph forest vs Forest/GraphResolve.v (cyclic forests included)"""
     try:
+        if sum_cases is not None:
+            # the forest must be pristine for this one: parse again
+            root2 = p.parse(w['text'])
+            sc = fc.coq_gsum_case(root2, p)
+            if len(sc) < 60000:
+                sum_cases.append(sc)
+                sum_meta.append(w)
         case, res = fc.coq_graph_case(root, p)
     except fc.Timeout:
         ctx.violation('walk-timeout', dict(w, visitor='ForestToParseTree/resolve'), True,
@@ -362,6 +372,7 @@ def correspond(ctx):
     tcases, tmeta = [], []
     vcases, vmeta = [], []
     gcases, gmeta = [], []
+    scases, smeta = [], []
     # ---- (a) acyclic: forest = derivations, TreeForestTransformer, is_ambiguous -------------------
     n_gram = ctx.scale(45, 250) * (3 if ctx.widen else 1)
     for gi in range(n_gram):
@@ -398,7 +409,7 @@ def correspond(ctx):
                 if rng.random() < 0.15:
                     walk_cases(ctx, ob['root'], ob['p'], w, vcases, vmeta, False, nd > 1, rng)
                 if rng.random() < 0.3:
-                    graph_case(ctx, ob['root'], ob['p'], w, gcases, gmeta, False)
+                    graph_case(ctx, ob['root'], ob['p'], w, gcases, gmeta, False, scases, smeta)
     import time; ctx.note('t_acyclic=%.1f' % (time.time()-ctx.t0))
     # ---- (c) dynamic lexers with %ignore terminals overlapping the grammar's terminals ----------------
     for w in EXOTIC:
@@ -469,7 +480,7 @@ def correspond(ctx):
             ncyc += 1
             ctx.count('cyclic', key=(g, text, lexer), nontrivial=True, lexer=lexer, nodes=min(len(nodes) // 20 * 20, 200))
             walk_cases(ctx, root, p, w, vcases, vmeta, True, True, rng if ncyc > 20 else None)
-            graph_case(ctx, root, p, w, gcases, gmeta, True)
+            graph_case(ctx, root, p, w, gcases, gmeta, True, scases, smeta)
             # the front ends themselves must return on cyclic forests
             for amb in ('resolve', 'explicit'):
                 if getattr(ctx, 'n_timeouts', 0) >= 3:
@@ -494,9 +505,9 @@ def correspond(ctx):
         idx = sorted(rng.sample(range(len(cases)), cap))
         return [cases[i] for i in idx], [meta[i] for i in idx]
     if not ctx.widen:
-        tcases, tmeta = subset(tcases, tmeta, ctx.scale(140, 1500))
+        tcases, tmeta = subset(tcases, tmeta, ctx.scale(110, 1500))
         icases, imeta = subset(icases, imeta, ctx.scale(70, 700))
-        vcases, vmeta = subset(vcases, vmeta, ctx.scale(380, 3000))
+        vcases, vmeta = subset(vcases, vmeta, ctx.scale(250, 3000))
     bad, errs = ctx.coq_bad_indices('c20t', IMPORTS, 'tft_ok', tcases, chunk=40)
     for e in errs:
         ctx.violation('correspondence:coq-evaluation', {'no_longer_checks': 'c20 tft cases', 'detail': e}, False, e)
@@ -522,7 +533,18 @@ def correspond(ctx):
             ctx.violation('correspondence:' + what, dict(w, no_longer_checks='model vs lark (ignore stream): ' + what), False,
                           'model and lark disagree on %s (diag %s); the Python oracle accepts this case' % (what, code))
     if not ctx.widen:
-        gcases, gmeta = subset(gcases, gmeta, ctx.scale(150, 1500))
+        gcases, gmeta = subset(gcases, gmeta, ctx.scale(80, 1500))
+    if not ctx.widen:
+        scases, smeta = subset(scases, smeta, ctx.scale(60, 1200))
+    bad, errs = ctx.coq_bad_indices('c20s', IMPORTS_G, 'gsum_ok', scases, chunk=40)
+    for e in errs:
+        ctx.violation('correspondence:coq-evaluation', {'no_longer_checks': 'c20 sum-walk cases', 'detail': e}, False, e)
+    for i in bad[:6]:
+        code, _ = ctx.coq_eval('c20s_diag_%d' % i, IMPORTS_G, 'gsum_diag %s' % scases[i])
+        what = {'1': 'symbol node priority after ForestSumVisitor', '2': 'packed node priority after ForestSumVisitor',
+                '3': 'walk annotation vs recursive reading gsv'}.get(str(code).split('%')[0], str(code))
+        ctx.violation('correspondence:sum-walk ' + what, dict(smeta[i], no_longer_checks='ForestSumVisitor on the graph: ' + what),
+                      False, 'model Forest/GraphSum.v and lark disagree on %s' % what)
     bad, errs = ctx.coq_bad_indices('c20g', IMPORTS_G, 'gres_ok', gcases, chunk=50)
     for e in errs:
         ctx.violation('correspondence:coq-evaluation', {'no_longer_checks': 'c20 graph-resolve cases', 'detail': e}, False, e)
